@@ -493,6 +493,8 @@ type Req struct {
 	// CookieForm: shape of the Cookie header around the session cookie, "{C}" standing for name=value - what browsers
 	// really send next to it (other applications' cookies, a trailing semicolon, a pair without value)
 	CookieForm string `json:"cookie_form,omitempty"`
+	// CookieOther: another session id, for "{O}" in CookieForm (a second session-cookie pair smuggled into the header)
+	CookieOther string `json:"cookie_other,omitempty"`
 	// ExtraHeaders: further request headers (what proxies in front of Envoy add: x-forwarded-*, forwarded, ...)
 	ExtraHeaders map[string]string `json:"extra_headers,omitempty"`
 }
@@ -540,7 +542,7 @@ func (w *World) Envoy(r Req) *envoy.CheckRequest {
 	if r.RawCookie != "" {
 		h["cookie"] = r.RawCookie
 	} else if r.Cookie != "" && r.CookieForm != "" {
-		h["cookie"] = strings.ReplaceAll(strings.ReplaceAll(r.CookieForm, "{C}", CookieName(w.Spec.CookiePrefix)+"="+r.Cookie), "{N}", CookieName(w.Spec.CookiePrefix))
+		h["cookie"] = strings.NewReplacer("{C}", CookieName(w.Spec.CookiePrefix)+"="+r.Cookie, "{N}", CookieName(w.Spec.CookiePrefix), "{O}", r.CookieOther).Replace(r.CookieForm)
 	} else if r.Cookie != "" {
 		h["cookie"] = "other=1; " + CookieName(w.Spec.CookiePrefix) + "=" + r.Cookie
 	}
